@@ -212,6 +212,14 @@ def run_candset(seed, n):
     for i in range(n):
         fd = corr_filters.make_filter(rng)
         L, R, names = T.gen_tables(rng, fd['kind'], max_rows=5)
+        if rng.random() < 0.15 and len(L) > 0:
+            # self-join: the SAME DataFrame object on both sides, filtering two different columns of it
+            L = L.copy()
+            vals = [v for v in L[names[1]].tolist()]
+            rng.shuffle(vals)
+            L['alt_' + names[1]] = pd.Series(vals, index=L.index, dtype=object)
+            R = L
+            names = (names[0], names[1], names[0], 'alt_' + names[1])
         cand, cl, cr = gen_candset(rng, L, R, names)
         r_ = rng.random()
         if len(cand) and r_ < 0.45:
